@@ -109,6 +109,23 @@ impl Mempool {
             "add transaction if validates : {:?}",
             transaction.signature.to_hex()
         );
+        //
+        // transaction.validate() serves block validation too, where fee, ATR and issuance
+        // transactions come from the block itself and are let through without a sender or
+        // a signature. the pool takes none of them : bundled into our next block they would
+        // only get that block refused. the one exception are the issuance transactions this
+        // node creates for the genesis block, while the chain is still empty.
+        //
+        if transaction.is_only_valid_inside_block()
+            && !(transaction.is_issuance_transaction() && blockchain.blocks.is_empty())
+        {
+            warn!(
+                "transaction : {:?} of type : {:?} cannot be added to the mempool",
+                transaction.signature.to_hex(),
+                transaction.transaction_type
+            );
+            return;
+        }
         let public_key;
         let tx_valid;
         {
